@@ -265,7 +265,7 @@ def run(ctx, deep, model_ok):
                 keep.append(v)
         ctx.violations[:] = keep[:8]
     if model_ok:
-        failing, errs = core.coq_eval_cases('C07', 'lines', IMPORTS, 'line_case', 'check_line', terms, shard=250)
+        failing, errs = core.coq_eval_cases('C07', 'lines', IMPORTS, 'line_case', 'check_line_accept', terms, shard=250)
         for e in errs:
             ctx.broken.append(('correspondence-broken', 'line construction: ' + e))
         for i in failing[:3]:
